@@ -234,6 +234,39 @@ class InterpStates(BFSFamily):
         return key, True, ('in-branch' if not all(a[3]) else 'running')
 
 
+class DeepStackStates(BFSFamily):
+    """BFS from a *non-initial* state: six pairwise distinct items are already on the stack (pushed by the prefix), the
+    alphabet is every stack-manipulation opcode plus altstack moves and two conditionals; depth 3 (4): sequences of the
+    deep opcodes (2ROT, 2SWAP, 2OVER, ROT, TUCK, PICK/ROLL with an index pushed before) acting on each other's results"""
+    name = 'interp_states_deep_stack'
+    nontrivial_rule = 'distinct canonical interpreter states'
+    PREFIX = b''.join(bytes([1, 0x30 + i]) for i in range(6))
+    TOK = [bytes([o]) for o in (0x6b, 0x6c, 0x6d, 0x6e, 0x6f, 0x70, 0x71, 0x72, 0x73, 0x74, 0x75, 0x76, 0x77, 0x78, 0x7b, 0x7c, 0x7d, 0x82, 0x87, 0x63, 0x67, 0x68)] + \
+          [b'\x00\x79', b'\x51\x79', b'\x53\x79', b'\x55\x7a', b'\x52\x7a', b'\x00\x7a', b'\x56\x79', b'\x01\x07']
+    fs = NONE
+
+    def depth(self, tier):
+        return 3 if tier == 'quick' else 4
+
+    def events(self, history):
+        return range(len(self.TOK))
+
+    def apply(self, history):
+        prefix = self.PREFIX + b''.join(self.TOK[i] for i in history)
+        a = L.lib_state_after(prefix, (), self.fs)
+        b = L.ref_state_after(prefix, (), self.fs)
+        if a[0] == 'EXC':
+            raise Viol('interpreter raised a non-validation exception on %s' % prefix.hex(), b[0], a[1])
+        if a[0] != b[0]:
+            raise Viol('after 6 pushes and %s the library %s but the reference %s' % (prefix[12:].hex(), 'has failed' if a[0] == 'fail' else 'is still running', 'has failed' if b[0] == 'fail' else 'is still running'), b[0], a[0])
+        if a[0] == 'fail':
+            return ('F',), False, 'failed'
+        if a[1:4] != b[1:4]:
+            raise Viol('interpreter state after 6 pushes and %s differs from the reference' % prefix[12:].hex(), ([x.hex() for x in b[1]], [x.hex() for x in b[2]], b[3]), ([x.hex() for x in a[1]], [x.hex() for x in a[2]], a[3]))
+        compare_eval(prefix, (), self.fs, 'deep-stack prefix as a complete script')
+        return (a[1], a[2], a[3]), True, 'running'
+
+
 # -------------------------------------------------------------------------------------------------------------
 NUMS = [b'', b'\x01', b'\x02', b'\x81', b'\x80', b'\x00', b'\x7f', b'\xff', b'\x80\x00', b'\x00\x80', b'\xff\x7f', b'\xff\xff', b'\x00\x01',
         b'\xff\xff\xff\x7f', b'\xff\xff\xff\xff', b'\x00\x00\x00\x80', b'\x00\x00\x00\x00', b'\x01\x00\x00\x00', b'\xfe\xff\xff\x7f',
@@ -692,4 +725,4 @@ class P2SHPairs(Family):
 
 
 def families(tier):
-    return [Programs(), InterpStates(NONE, 'noflags'), InterpStates(BOTH, 'discourage_nulldummy'), Operands(), StackOps(), FlowControl(), Limits(), SignatureOps(), VerifyPairs(), P2SHPairs()]
+    return [Programs(), InterpStates(NONE, 'noflags'), InterpStates(BOTH, 'discourage_nulldummy'), DeepStackStates(), Operands(), StackOps(), FlowControl(), Limits(), SignatureOps(), VerifyPairs(), P2SHPairs()]
